@@ -451,12 +451,17 @@ func (c *Client) SendAndRead(ctx context.Context, dest *net.UDPAddr, msg *dhcpv6
 		c.logger.PrintMessage("sent message", msg)
 		defer rem()
 
+		// One timer per try: packets that the matcher rejects must not
+		// postpone the deadline.
+		deadline := time.NewTimer(timeout)
+		defer deadline.Stop()
+
 		for {
 			select {
 			case <-c.done:
 				return ErrNoResponse
 
-			case <-time.After(timeout):
+			case <-deadline.C:
 				return errDeadlineExceeded
 
 			case <-ctx.Done():
